@@ -31,6 +31,8 @@ def key_of(clause, label, prog, tr, l):
 def run(chk):
     items = eg.collect(chk, ["fanout", "outcomes"], allow_cancel=True, timeout_advance=True, p_cancel=0.08, drain=False,
                        paths_q=40, walks_q=10)
+    # sub-quiescence schedules: a body finishes, the loop is held up across the timeout deadline, then resumes
+    items += eg.collect(chk, ["outcomes"], timeout_advance=True, drain=False, paths_q=25, walks_q=6, batch=True)
     items = [it for it in items if it[0] != "retry policy raises"]
     out = []
     nres = 0
@@ -52,5 +54,5 @@ def run(chk):
         if r["e"] == "pub":
             return r["p"]["k"] in ("state", "timedout", "cancelled")
         return True
-    eg.standard_run(chk, "C31", None, {"pub", "step_start", "outcome", "quiet", "snapshot", "resumed", "resume_end", "resume_timeout_probe"},
+    eg.standard_run(chk, "C31", None, {"pub", "step_start", "step_end", "outcome", "quiet", "snapshot", "resumed", "resume_end", "resume_timeout_probe"},
                     nontrivial=nontrivial, items=out, extra=extra, keep=keep, key_of=key_of)
